@@ -27,7 +27,7 @@ CHECKS = {
         "(Frame.external_edges_id+internal_big_edges(_vertices), BigEdge.external, get_tensions rows) define the same set, equal to "
         "'all vertices in >=2 cells and an end in >=3'. Tied to the code by an exact per-run comparison of Frame construction with "
         "the model, plus an independent graph-walk oracle for maximal paths, two-cells-per-internal-interface and lookup-by-cells "
-        "(those two clauses are decided by the oracle on generated tissues, not by a theorem: they need planarity).",
+        "(those two clauses are decided by the oracle on generated tissues, not by a theorem: they need planarity). own_cells is proved to be exactly two cells for interfaces with an interior point (under the planarity fact that the middle vertex lies in at most two cells) and for two-point interfaces whose mesh edge lies in exactly two cells' cycles (after the repair D30); the square lattice with a missing cell (D27) and the lens cell are machine-checked witnesses.",
    design_ref="DESIGN.md §7 C08",
    technique="Lean 4 theorems over an executable list model + exact differential check against forsys.frames.Frame",
    note=BASE_NOTE + " own_cells-has-two-cells and lookup-by-cells are listed as pending obligations in the evidence."),
@@ -56,7 +56,7 @@ CHECKS = {
         "resampled interface with unchanged id/coordinates; interface ends survive; every cycle is a subsequence of its original). Tied to the "
         "code by exact comparison of generate_mesh's three dictionaries, nEdgeArray and error kind with the model, plus an oracle for every "
         "clause on (snapshot before, result), incl. junction positions, adjacency, midpoint contraction and idempotence. Merging of "
-        "two-point border interfaces in chains is a known finding (D17).",
+        "two-point border interfaces in chains is a known finding (D17). Resampling without merging is proved to preserve mesh consistency (generateMesh_false_consistent, Props/C11mesh.lean) under two decidable hypotheses with witnesses; junction ends are kept at their exact position.",
    design_ref="DESIGN.md §7 C11",
    technique="Lean 4 theorems over list/mesh model + exact differential check against virtual_edges.generate_mesh",
    note=BASE_NOTE + " int(len/ne*i) == floor(len*i/ne) is re-checked exhaustively per run for len<800 (quick) / 3000 (thorough), ne<=12."),
@@ -68,7 +68,7 @@ CHECKS = {
         "give the chord) and about the assembled rows (one column per used interface, no coefficient and no equation for vertices of fewer "
         "than three cells, keep-rule = at least three placed interfaces, <4 with ignore_four, unknowns = internal interfaces when no limit). "
         "Tied to the code per run: matrix, row map, unknown list compared with the model fed with the real fit's centres (zero pattern exact, "
-        "coefficients 1e-9), and an oracle against closed-form tangents of Moebius images / lattices (1e-6 arcs).",
+        "coefficients 1e-9), and an oracle against closed-form tangents of Moebius images / lattices (1e-6 arcs). Since the repair of eid_from_vertex (D29, found through the hypothesis these theorems first needed) the placement of every coefficient (coefficient_placement: entry (junction, column) = tangent of that interface at the junction if it ends there, else 0), the row rule (row_rule_spec) and the unknowns (unknowns_spec) are theorems without further hypotheses.",
    design_ref="DESIGN.md §7 C02",
    technique="Lean 4 theorems over Rat model of tangent and matrix assembly + differential check with closed-form Moebius tangents",
    note=BASE_NOTE + " The circle fit is an external kernel whose centre is an input of the model. Known finding D2 (mirrored tangent) is reported as KNOWN-FINDING."),
